@@ -6,6 +6,7 @@ import (
 	"fmt"
 	"log/slog"
 	"os"
+	"regexp"
 	"slices"
 	"strings"
 	"time"
@@ -53,7 +54,11 @@ func (cfg *Config) SetDisabledChecks(l []string) {
 		// add raw string: promql/series(prom)
 		disabled[s] = struct{}{}
 		// find any check name that matches string as regexp
-		re := strictRegex(s)
+		re, err := regexp.Compile("^" + s + "$")
+		if err != nil {
+			// not a regexp, e.g. promql/series(+tag), only the raw string is used
+			continue
+		}
 		for _, name := range checks.CheckNames {
 			if re.MatchString(name) {
 				disabled[name] = struct{}{}
